@@ -11,6 +11,10 @@
 //!                                               at term offset o is tab[(o / 32 + salt) mod ntab] (1 Abort 2 Break 3 Commit 4 Continue)
 //!            3 block blimit                     Subscription::block_poll
 //!            4 grow slot j | 5 add slot | 6 remove slot
+//!            7 roll slot vis claim nframes { <typ> <flags> <flen> <k> <dtid> }*
+//!                 the publisher continues in the next term: when the slot's subscriber position is the start of term n + 1
+//!                 (its term n consumed to the end) the slot's segment becomes (n + 1, offset 0, vis, claim, frames), written
+//!                 into the (cleaned) next partition; otherwise nothing happens
 //! observation: one entry per op:
 //!   (ret, [raw fragments (offset, length, flags, Ok (header.position()), session, payload hash)],
 //!    [messages given to the delegate (session, length, hash)], [subscriber position of every slot])
@@ -172,6 +176,28 @@ fn case_sub(a: &[i64]) -> String {
                 let si = next() as usize;
                 if let Some(corr) = slots[si].corr {
                     rig.remove_image(corr);
+                }
+                ret = "Ok (0)".to_string();
+            },
+            7 => {
+                let si = next() as usize;
+                let vis = next() as usize;
+                let claim = next() != 0;
+                let nf = next() as usize;
+                let mut frames = Vec::new();
+                for _ in 0..nf {
+                    frames.push(FrameSpec { typ: next(), flags: next(), flen: next(), k: next(), dtid: next() });
+                }
+                let pos = rig.counter(3 + si as i32).get();
+                let s = &mut slots[si];
+                if pos == (s.seg.n + 1) << s.bits {
+                    s.seg = Seg { n: s.seg.n + 1, off: 0, vis, claim, frames };
+                    if let Some(image) = &s.image {
+                        let tl: i32 = 1 << s.bits;
+                        let part = (s.seg.n.rem_euclid(3)) as Index;
+                        image.log_buffers().atomic_buffer(part).set_memory(0, tl, 0);
+                        sync_seg(image, tl, s.init, s.session, &s.seg, 0);
+                    }
                 }
                 ret = "Ok (0)".to_string();
             },
